@@ -215,3 +215,11 @@ def run(F, rep):
     usesp = [(g, m) for g in pr for m in g.walk() if m.get('k') == 'Call' and f.key in F.callee_keys(m)]
     rep.check(not red and len(usesp) >= 2, 'C16.P1', 'printer|full-precision', None, 'printer calls convertToString(double) %d times, %d with reduced precision' % (len(usesp), len(red)),
               '%d printer conversions, all full precision' % len(usesp))
+
+    # ------------------------------------------------------------------ clause shared with C01: "is this initial value a number or the name of a variable" is decided by the grammar recogniser
+    if not getattr(rep, 'nested', False):
+        import core
+        import c01
+        c01.run(F, core.Borrowed(rep, only={'C01.V2'}))
+
+
